@@ -2,15 +2,18 @@ module vh
 
 go 1.20
 
-require github.com/evanoberholster/imagemeta v0.0.0
+require (
+	github.com/evanoberholster/imagemeta v0.0.0
+	github.com/tinylib/msgp v1.1.8
+)
 
 require (
+	github.com/klauspost/cpuid/v2 v2.2.4 // indirect
 	github.com/mattn/go-colorable v0.1.13 // indirect
 	github.com/mattn/go-isatty v0.0.17 // indirect
 	github.com/philhofer/fwd v1.1.2 // indirect
 	github.com/pkg/errors v0.9.1 // indirect
 	github.com/rs/zerolog v1.29.0 // indirect
-	github.com/tinylib/msgp v1.1.8 // indirect
 	golang.org/x/sys v0.5.0 // indirect
 )
 
